@@ -15,7 +15,7 @@ class Mon:
 
 # ---------------------------------------------------------------------------------------------------------- C09
 class C09(Mon):
-    fields = ("due", "from_deferred", "pending_seen", "n_tr")
+    fields = ("due", "from_deferred", "pending_seen")      # n_tr is a scan index (everything is scanned at every cut), not ghost state
 
     def __init__(self, sc, tr):
         self.sc, self.tr, self.I, self.w, self.eng = sc, tr, sc.I, sc.w, sc.eng
@@ -46,7 +46,9 @@ class C09(Mon):
                 self.due = False
             if to == "idle":
                 self.due = self.from_deferred = False
-        if self.flag():
+        if kind == "call" and a[0] == "__call__":
+            self.pending_seen = False        # the next plan starts: __call__ clears the request
+        elif self.flag() and self.eng.state != "idle":
             self.pending_seen = True
         if kind in ("plan-yield", "replay-yield"):
             msg = a[1]
@@ -89,7 +91,7 @@ def c09_checks(sc, tr):
 
 # ---------------------------------------------------------------------------------------------------------- C10
 class C10(Mon):
-    fields = ("doomed", "n_tr", "thrown")
+    fields = ("doomed", "thrown")
 
     def __init__(self, sc, tr):
         self.sc, self.tr, self.I, self.w, self.eng = sc, tr, sc.I, sc.w, sc.eng
@@ -99,8 +101,8 @@ class C10(Mon):
         self.eng.ghost.setdefault("on_transition", []).append(self.on_transition)
 
     def on_transition(self, fr, to):
-        if self.doomed is not None or not self.tr.section_nr:
-            return
+        if self.doomed is not None or not self.tr.section_nr or self.sc.plan.done:
+            return          # (a request that takes effect after the plan's last message interrupts nothing: see C08)
         if to in ("pausing", "suspending"):
             self.doomed, self.thrown = to, self.sc.plan.done
         elif to == "aborting" and is_exc(self.I, self.I.getattr(self.sc.re, "_exception"), "bluesky.utils", "FailedPause"):
@@ -144,11 +146,15 @@ def c10_checks(sc, tr):
 
 
 # ---------------------------------------------------------------------------------------------------------- C12
+KF_C12 = "C12-inflight-error-lost-on-rewind"
+
+
 class C12(Mon):
-    fields = ("pending",)
+    fields = ("pending", "lost_inflight")
 
     def __init__(self, sc, tr):
         self.sc, self.tr, self.I, self.w, self.eng = sc, tr, sc.I, sc.w, sc.eng
+        self.lost_inflight = False
         self.pending = None           # the device exception raised by the handler of the user plan's current message, not yet delivered
 
     def __call__(self, kind, *a):
@@ -159,9 +165,13 @@ class C12(Mon):
             self.pending = a[1]
         elif kind == "dev-fail" and getattr(a[0], "msg", None) is sc.plan.last_msg:
             self.pending = a[1]
+        elif kind == "outcome-lost" and a[0] is sc.plan.last_msg and a[1][0] == "throw":
+            self.lost_inflight = True       # the error reached the future, but the waiting handler was cancelled before it woke up
+        elif kind == "plan-yield" and a[0] is sc.plan:
+            self.lost_inflight = False
         elif kind == "plan-send" and a[0] is sc.plan:
             if self.pending is not None:
-                w.check(name, False, dict(info, got="a normal response", error=repr(self.pending)))
+                w.check_kf(name, False, KF_C12, self.lost_inflight, dict(info, got="a normal response", error=repr(self.pending)))
             else:
                 w.ok(name)
             self.pending = None
@@ -213,7 +223,7 @@ class C13(Mon):
             self.responses += (a[1],)
         elif kind == "dev-complete" and getattr(a[0], "msg", None) is cur:
             self.responses += (a[1],)
-        elif kind == "handler-cancelled" and a[0] is cur:
+        elif kind in ("handler-cancelled", "outcome-lost") and a[0] is cur:
             self.inflight_cancelled = True
         elif kind == "open_run":
             self.opened += (a[0].uid,)
@@ -230,7 +240,9 @@ class C13(Mon):
                            dict(info, message=cur.command, got=repr(v), produced=[repr(r) for r in self.responses]))
             else:
                 w.check(name, v is None, dict(info, message=cur.command, got=repr(v)))
-        elif kind == "returned" and a[0] in ("__call__", "resume", "abort", "stop", "halt") and self.eng.state == "idle":
+        elif kind == "returned" and a[0] in ("__call__", "resume") and self.eng.state == "idle":
+            # (abort / stop / halt compute their return value when the request is made: a plan that opens a run during its
+            # cleanup makes it incomplete; the statement speaks of RE(...) only)
             nm, r = a
             if r[0] == "ok":
                 val = r[1]
